@@ -318,6 +318,7 @@ def generate(repo):
     w('  | listRe (lits : List (List Nat)) (re : Re) (ty : Nat)   -- `media_type in L or re.match(L[k], media_type, flags)`')
     w('  | eq (lit : List Nat) (ty : Nat)                         -- `media_type == lit`')
     w('  | pre (lit : List Nat) (ty : Nat)                        -- `media_type.startswith(lit)`')
+    w('deriving DecidableEq')
     w('')
     for lname, vals in lists.items():
         w('/-- `%s` -/' % lname)
